@@ -495,6 +495,41 @@ def vmConvertTo (tbl : Table α) (a b : Quantity α) : Except QErr (Quantity α)
   | .ok r => .ok { r with canSimplify := false }
   | .error e => .error e
 
+/-! ### assertions (`ffi/procedures.rs`) -/
+
+inductive AssertRes where
+  | ok            -- ControlFlow::Continue
+  | failed        -- AssertFailed / AssertEq2Failed / AssertEq3Failed
+  | qerr          -- RuntimeErrorKind::QuantityError
+deriving Repr, DecidableEq
+
+/-- `assert(c)` -/
+def assertBool (c : Bool) : AssertRes := if c then .ok else .failed
+
+/-- `assert_eq(a, b)` on quantities -/
+def assertEq2 (tbl : Table α) (a b : Quantity α) : AssertRes :=
+  match convertTo tbl a b.unit with
+  | .ok c => if qeq tbl c b then .ok else .failed
+  | .error _ => .failed
+
+/-- `PartialOrd::le` of `Quantity` (`partial_cmp`: the right operand is converted; NaN or incompatible => false) -/
+def qle (tbl : Table α) (a b : Quantity α) : Bool :=
+  match convertTo tbl b a.unit with
+  | .ok b' => !isNaN a.value && !isNaN b'.value && le a.value b'.value
+  | .error _ => false
+
+/-- `assert_eq(a, b, eps)` -/
+def assertEq3 (tbl : Table α) (a b eps : Quantity α) : AssertRes :=
+  match convertTo tbl a eps.unit with
+  | .error _ => .qerr
+  | .ok ac =>
+    match convertTo tbl b eps.unit with
+    | .error _ => .qerr
+    | .ok bc =>
+      match qsub tbl ac bc with
+      | .error _ => .qerr
+      | .ok d => if qle tbl ⟨NumOps.abs d.value, d.unit, true⟩ eps then .ok else .failed
+
 /-- registry information per table row -/
 structure RegRow where
   isAbbreviation : Bool
